@@ -146,3 +146,84 @@ pub fn jstr(s: &str) -> String {
     o.push('"');
     o
 }
+
+fn esc(s: &str) -> String {
+    s.replace('\\', "\\\\").replace('\n', "\\n").replace('\t', "\\t")
+}
+fn unesc(s: &str) -> String {
+    let mut o = String::with_capacity(s.len());
+    let mut it = s.chars();
+    while let Some(c) = it.next() {
+        if c == '\\' {
+            match it.next() {
+                Some('n') => o.push('\n'),
+                Some('t') => o.push('\t'),
+                Some('\\') => o.push('\\'),
+                Some(x) => {
+                    o.push('\\');
+                    o.push(x)
+                }
+                None => o.push('\\'),
+            }
+        } else {
+            o.push(c);
+        }
+    }
+    o
+}
+
+impl Report {
+    /// line format used between shard processes and their parent
+    pub fn to_lines(&self) -> String {
+        let mut s = String::new();
+        s.push_str(&format!("C\t{}\n", esc(&self.component)));
+        s.push_str(&format!("E\t{}\n", self.evaluations));
+        s.push_str(&format!("M\t{}\n", self.model_requests));
+        s.push_str(&format!("R\t{}\n", esc(&self.rule)));
+        for h in &self.nontrivial {
+            s.push_str(&format!("N\t{h}\n"));
+        }
+        for x in &self.samples {
+            s.push_str(&format!("S\t{}\n", esc(x)));
+        }
+        for (k, v) in &self.dist {
+            s.push_str(&format!("D\t{}\t{}\n", esc(k), v));
+        }
+        for f in &self.failures {
+            s.push_str(&format!("F\t{}\t{}\t{}\t{}\n", esc(&f.kind), esc(&f.signature), esc(&f.what), esc(&f.case)));
+        }
+        for x in &self.drift {
+            s.push_str(&format!("X\t{}\n", esc(x)));
+        }
+        for x in &self.notes {
+            s.push_str(&format!("O\t{}\n", esc(x)));
+        }
+        s
+    }
+}
+
+/// inverse of `to_lines` (the name is historical: shard outputs are exchanged in this format)
+pub fn from_json(s: &str) -> Option<Report> {
+    let mut r = Report::default();
+    for line in s.lines() {
+        let p: Vec<&str> = line.split('\t').collect();
+        match p.first().copied()? {
+            "C" => r.component = unesc(p.get(1)?),
+            "E" => r.evaluations = p.get(1)?.parse().ok()?,
+            "M" => r.model_requests = p.get(1)?.parse().ok()?,
+            "R" => r.rule = String::new(),
+            "N" => {
+                r.nontrivial.insert(p.get(1)?.parse().ok()?);
+            }
+            "S" => r.samples.push(unesc(p.get(1)?)),
+            "D" => {
+                r.dist.insert(unesc(p.get(1)?), p.get(2)?.parse().ok()?);
+            }
+            "F" => r.failures.push(Failure { kind: unesc(p.get(1)?), signature: unesc(p.get(2)?), what: unesc(p.get(3)?), case: unesc(p.get(4)?) }),
+            "X" => r.drift.push(unesc(p.get(1)?)),
+            "O" => r.notes.push(unesc(p.get(1)?)),
+            _ => {}
+        }
+    }
+    Some(r)
+}
